@@ -44,6 +44,8 @@ var pinned = []string{
 	`x = #y in z`,
 	`({...a.b, ...!c} = {})`,
 	`[...!x] = []`,
+	`Object.defineProperty(GOSTRUCT.C, 'length', {value: 1})`,
+	`Object.defineProperty(GOSLICE, 'length', {value: 1})`,
 }
 
 func Check() *core.Check {
